@@ -130,6 +130,8 @@ impl SchedulerContext {
 
     #[inline]
     pub(super) fn logical_timestamp(&self) -> usize {
+        #[cfg(feature = "verif")]
+        crate::verif::point(crate::verif::pt::CTX_TIMESTAMP, 0);
         self.logical_clock.fetch_add(1, Ordering::AcqRel)
     }
 
@@ -140,6 +142,8 @@ impl SchedulerContext {
 
     #[inline]
     pub(super) fn unconfirmed(&self, index: usize, timestamp: usize) {
+        #[cfg(feature = "verif")]
+        crate::verif::point(crate::verif::pt::CTX_UNCONFIRMED, index);
         self.unconfirmed_timestamps[index].fetch_max(timestamp, Ordering::AcqRel);
     }
 
@@ -157,6 +161,8 @@ impl SchedulerContext {
     pub(super) fn publish_finality(&self, index: usize) {
         #[cfg(feature = "verif")]
         crate::verif::event(crate::verif::Event::PublishFinality { index });
+        #[cfg(feature = "verif")]
+        crate::verif::point(crate::verif::pt::CTX_PUBLISH_FINALITY, index);
         self.finality.publish(index);
     }
 
@@ -169,6 +175,8 @@ impl SchedulerContext {
     pub(super) fn publish_commit(&self, index: usize) {
         #[cfg(feature = "verif")]
         crate::verif::event(crate::verif::Event::PublishCommit { index });
+        #[cfg(feature = "verif")]
+        crate::verif::point(crate::verif::pt::CTX_PUBLISH_COMMIT, index);
         self.committed.publish(index);
     }
 
